@@ -294,6 +294,45 @@ func c06r3(c *core.Ctx) {
 			}
 		})
 		c.Check(found, "reader-last-frame-test@"+fname(dec), dec.Pos(), "the reader's last-frame test compares with the same constant", "the reader's last-frame test does not compare with PacketLengthMax")
+		// polarity: after a frame shorter than the constant the message is complete (no further frame is read), after a full
+		// frame the next length is read
+		fm := buildFrameModel(dec)
+		if fm.length != nil {
+			nTests, good := 0, true
+			for _, b := range dec.Blocks {
+				iff, ok := b.Instrs[len(b.Instrs)-1].(*ssa.If)
+				if !ok {
+					continue
+				}
+				bo, ok := iff.Cond.(*ssa.BinOp)
+				if !ok {
+					continue
+				}
+				n, isK := core.ConstInt(bo.Y)
+				if !isK || n != v {
+					continue
+				}
+				shortIdx := -1 // successor taken when the frame is shorter than the constant
+				switch bo.Op {
+				case token.LSS, token.NEQ:
+					shortIdx = 0
+				case token.GEQ, token.EQL:
+					shortIdx = 1
+				}
+				if shortIdx < 0 {
+					continue
+				}
+				nTests++
+				again := func(from *ssa.BasicBlock) bool {
+					return core.Reach(from, nil, nil)[fm.length.call.Block()]
+				}
+				if again(b.Succs[shortIdx]) || !again(b.Succs[1-shortIdx]) {
+					good = false
+				}
+			}
+			c.Check(good && nTests > 0, "reader-last-frame-polarity@"+fname(dec), dec.Pos(), "a short frame ends the message, a full frame is followed by the next length read",
+				"the last-frame test is inverted: after a full frame the reader stops (the message is cut at 1024 bytes), after the short last frame it goes on reading and swallows the next message")
+		}
 	}
 }
 
